@@ -43,13 +43,20 @@ Definition c15_part_sites (p : c15_part) : list c15_doc_site :=
 
 Lemma c15_sites_docs b ds : map snd (c15_sites b ds) = ds.
 Proof. unfold c15_sites. rewrite map_map. apply map_id. Qed.
+Lemma c15_sites_text l b ds : map (c15_site_text l) (c15_sites b ds) = map (c15_written l b) ds.
+Proof. unfold c15_sites. rewrite map_map. reflexivity. Qed.
+(* the line-comment languages (and Python's `# ` form) print the doc strings verbatim *)
+Lemma c15_sites_text_line l ds : l <> C15ts -> map (c15_site_text l) (c15_sites false ds) = ds.
+Proof. intros H. rewrite c15_sites_text. apply c15_written_map_id; [exact H|reflexivity]. Qed.
+Lemma c15_sites_text_ts b ds : map (c15_site_text C15ts) (c15_sites b ds) = map c15_esc_ts ds.
+Proof. apply c15_sites_text. Qed.
 
 Lemma c15_parts_sites_docs l ps :
-  docs_of (c15_file_pieces l ps) = map snd (flat_map c15_part_sites ps).
+  docs_of (c15_file_pieces l ps) = map (c15_site_text l) (flat_map c15_part_sites ps).
 Proof.
   rewrite c15_file_docs. induction ps as [|p r IH]; [reflexivity|].
   cbn [flat_map]. rewrite map_app, IH. f_equal. destruct p as [s|b i ds]; [reflexivity|].
-  cbn [c15_part_sites]. now rewrite c15_sites_docs.
+  cbn [c15_part_sites c15_part_written]. now rewrite c15_sites_text.
 Qed.
 
 Lemma c15_parts_safe_sites l ps :
@@ -68,6 +75,9 @@ Proof.
   intros Hl. unfold c15_sites. induction docs as [|d r IH]; [reflexivity|].
   cbn [map forallb]. rewrite IH. f_equal. unfold c15_site_ok. cbn [fst snd]. destruct l; try reflexivity. congruence.
 Qed.
+
+Lemma c15_sites_ok_ts sites : forallb (c15_site_ok C15ts) sites = true.
+Proof. apply c15_forallb_true. intros [b d]. apply c15_safe_ts. Qed.
 
 Section Decomp.
 Variable l : c15_lang.
@@ -161,7 +171,7 @@ Definition c15_neutral (l : c15_lang) (s : str) : Prop := lex_str_gen (c15_cfg l
 Theorem Decomp_partial l text sites : Decomp l (fun _ => True) text sites ->
   exists parts,
     text = text_of (c15_file_pieces l parts) /\
-    docs_of (c15_file_pieces l parts) = map snd sites /\
+    docs_of (c15_file_pieces l parts) = map (c15_site_text l) sites /\
     (Forall (c15_code_neutral l) parts ->
      c15_contained l LCode (mark (c15_file_pieces l parts)) = forallb (c15_site_ok l) sites).
 Proof.
@@ -174,7 +184,7 @@ Qed.
 Theorem Decomp_contained l text sites : Decomp l (c15_neutral l) text sites ->
   exists parts,
     text = text_of (c15_file_pieces l parts) /\
-    docs_of (c15_file_pieces l parts) = map snd sites /\
+    docs_of (c15_file_pieces l parts) = map (c15_site_text l) sites /\
     c15_contained l LCode (mark (c15_file_pieces l parts)) = forallb (c15_site_ok l) sites.
 Proof.
   intros (ps & Ht & Hs & Hp). exists ps. repeat split; [exact Ht| |].
